@@ -187,7 +187,8 @@ CheckHttp(r) ==
   \* C16: solving unparseable code is refused
   /\ (r.op = "solve" /\ r.status = 200) =>
        \A d \in RangeOf(prevprobs) :
-         (d.name = r.args.name /\ d.code \in codes[r.p] /\ d.per[1].type = "Error") => Report(FALSE, r.id, "C16", "solve-accepted-for-unparseable-code")
+         \* the document of the ACCOUNT the request speaks for (a person may hold a same-named problem under another account)
+         (d.name = r.args.name /\ d.username = r.me /\ d.code \in codes[r.p] /\ d.per[1].type = "Error") => Report(FALSE, r.id, "C16", "solve-accepted-for-unparseable-code")
 
 \* account bookkeeping from OBSERVED successful requests (who knows which password for which name)
 NextPw(r) ==
